@@ -124,6 +124,24 @@ func solveObligation(o *Obligation, dir string, timeoutS int, all bool) {
 		fmt.Fprintf(&sb, "[%s %.2fs %s] ", r.solver, r.secs, r.verdict)
 	}
 	o.Output = sb.String()
+	if winner == nil && !o.Cover && o.Relaxed != "" {
+		// second chance on the quantifier-free relaxation
+		r := runSolver(context.Background(), solvers[0], o.Relaxed, timeoutS/2+1)
+		fmt.Fprintf(&sb, "[relaxed %s %.2fs %s] ", r.solver, r.secs, r.verdict)
+		o.Output = sb.String()
+		if r.verdict == "unsat" {
+			o.Status = "discharged"
+			o.Solver = r.solver + "(relaxed)"
+			o.Seconds = r.secs
+			return
+		}
+		if r.verdict == "sat" {
+			o.Status = "unknown"
+			o.Model = r.out
+			o.Output += "\ncandidate counterexample from the quantifier-free relaxation (may be spurious)"
+			return
+		}
+	}
 	if winner == nil {
 		o.Status = "unknown"
 		for _, r := range results {
@@ -197,6 +215,10 @@ func prepare(o *Obligation, dir string) {
 	}
 	os.WriteFile(file, []byte("; obligation "+o.ID+"\n; "+strings.ReplaceAll(o.Text, "\n", " ")+"\n"+q), 0o644)
 	o.Query = file
+	// relaxed variant (no quantified hypotheses): used only when the full query is undecided
+	q2, _ := emitQueryOpt(hyps, o.Goal, true, true)
+	o.Relaxed = filepath.Join(dir, sanitizeFile(o.ID)+".relaxed.smt2")
+	os.WriteFile(o.Relaxed, []byte("; RELAXED (quantified hypotheses dropped) "+o.ID+"\n"+q2), 0o644)
 }
 
 func solveAll(obls []*Obligation, dir string, timeoutS int, all bool, par int) {
